@@ -119,6 +119,28 @@ reg(
     "Trusted: numpy pinv/lstsq for the affine reference. Early stops on instances that are infeasible in range are the known finding D10.",
 )
 
+reg(
+    "C11",
+    "reference-model monitor: exact power-series composition (total derivatives along rational curves) vs jet_lift outputs; exact reduced Jacobians vs linearize(); argument log per stacked residual part; rejection table for lift_by",
+    "ode.jet_lift / residual.jet_lift / jet_lift_max on random polynomial right-hand sides (order 1..3) and residuals "
+    "(differential order 0..2) in (u,u',u'',t), lift orders 0..5, random rational curves, flat and pytree states; inadmissible "
+    "lift_by must raise; residual_from_stack parts are wrapped and their arguments logged; linearize() of TS0 / TS1 / residual / "
+    "user-written residual / jet-lifted TS0 constraints in three factorisations must reproduce the constraint value and the "
+    "exact (full, per-dimension, trace-averaged) Jacobian; TS1 == residual(u^(k)-f).",
+    "Trusted: pdv/poly.py series arithmetic; pdv/refmodel/lin.py.",
+)
+reg(
+    "C20",
+    "fault enumeration: committed table of entry points x single-field corruptions x factorisations, each executed through construction + first use; outcome raised vs produced-numbers; warnings captured and matched against the remedy",
+    "All 166 table rows are executed on every run (exhaustive over the table): prior constructors (coefficient container, "
+    "exactness flags, output scale), diffuse priors (std container), constraint constructors (plain functions / wrong "
+    "description types), both losses (noise container, posterior type), residual error estimate with jet-lifted constraints, "
+    "lift orders, exponential-prior order, ensemble size, Taylor routines, Jacobian handler inputs, and ten strategy/routine "
+    "pairings (warn naming the remedy / no warning). Valid rows must produce numbers.",
+    "The table bounds the coverage; 'first use' = solver.init + one step or one loss/estimate evaluation.",
+    category="fault_enumeration",
+)
+
 NOT_BUILT_REASON = "check under construction in this session; not yet registered"
 
 
